@@ -89,6 +89,7 @@ func (s *indexKVStore) GetValue(bucketID uint32, key []byte) (id uint32, ok bool
 // GetValues returns all values for bucket.
 func (s *indexKVStore) GetValues(bucketID uint32) (ids []uint32, err error) {
 	snapshot := s.getSnapshot()
+	verifhook.Yield("index.kvstore.values.afterSnapshot")
 
 	reader := v1.NewIndexKVReader(snapshot)
 	bucket, err := reader.GetBucket(bucketID)
@@ -161,6 +162,7 @@ func (s *indexKVStore) CollectKVs(bucketID uint32, values *roaring.Bitmap, resul
 	}
 
 	snapshot := s.getSnapshot()
+	verifhook.Yield("index.kvstore.collect.afterSnapshot")
 
 	reader := v1.NewIndexKVReader(snapshot)
 	bucket, err := reader.GetBucket(bucketID)
@@ -211,6 +213,7 @@ func (s *indexKVStore) Suggest(bucketID uint32, prefix string, limit int) ([]str
 	}
 
 	snapshot := s.getSnapshot()
+	verifhook.Yield("index.kvstore.suggest.afterSnapshot")
 
 	reader := v1.NewIndexKVReader(snapshot)
 	bucket, err := reader.GetBucket(bucketID)
